@@ -137,7 +137,7 @@ def gen_op(rng, q, maxnf=5):
                 u = rng.random()
                 if j == 0:
                     x[k] = x[k] * (1 + 0.02 * rnd(rng, -1, 1)) if b == 0 else x[k]
-                elif u < 0.6:
+                elif u < 0.6 or (j == 1 and b < 2):       # the leading rc / zs harmonic is never zeroed: the axis stays non-planar
                     x[k] = x[k] * (1 + 0.1 * rnd(rng, -1, 1))
                 elif u < 0.75:
                     x[k] = 0.0
@@ -242,7 +242,16 @@ def run_history(cfg, ops=None, rng=None, nops=8, stats=None):
             else:
                 raise ValueError('unknown op %r' % (op,))
         except Exception as e:
-            V('history', 'op %r raised %s: %s' % (op[0], type(e).__name__, e), done)
+            # inadmissible parameters (NaN in the O(r^2) solve, singular matrix ...): there is no fresh object to compare with;
+            # the property only requires that a fresh construction from the same parameters fails as well
+            try:
+                fresh_from(q)
+                V('history', 'op %r raised %s (%s) although a fresh construction from the same parameters succeeds' % (op[0], type(e).__name__, str(e)[:120]), done)
+            except Exception as e2:
+                bump('inadmissible:' + type(e).__name__)
+                bump('predictions')
+                if type(e2) is not type(e):
+                    V('history', 'op %r raised %s but a fresh construction from the same parameters raises %s' % (op[0], type(e).__name__, type(e2).__name__), done)
             break
         bump('op:' + op[0] + ('' if accepted else ':rejected'))
         got = np.array(q.get_dofs(), dtype=float)
@@ -372,9 +381,35 @@ def check_alias(cfg, rng, stats):
 
 
 # ---------------------------------------------------------------------------------------------- presets
-def load_manifest():
+def load_manifest(res=None):
+    """the preset table extracted by tools/gen_obj.py from the tree under test; re-extracted in process when the committed
+    manifest is absent or was generated from another tree; last resort (front-end rejects the tree): learnt from the code"""
     p = os.path.join(COQ, 'gen', 'obj_manifest.json')
-    return json.load(open(p))
+    try:
+        man = json.load(open(p))
+        if os.path.realpath(man.get('repo', '')) == os.path.realpath(REPO):
+            return man
+    except Exception:
+        pass
+    try:
+        sys.path.insert(0, os.path.join(ROOT, 'tools'))
+        import gen_obj
+        d = gen_obj.extract(REPO)
+        return dict(preset_branches=d['preset_branches'], preset_advertised=d['preset_advertised'], repo=REPO)
+    except Exception as e:
+        if res is not None:
+            res['distribution']['manifest'] = 'front-end failed (%s): presets learnt from from_paper itself' % str(e)[:120]
+        qsc = import_qsc()
+        KwargsOnly.from_paper = classmethod(qsc.Qsc.from_paper.__func__)
+        br = []
+        cands = list(qsc.Qsc.configurations) + ['5.1', '5.2', '5.3', '5.4', '5.5', 1, 2, 3, 4, 5, 'LandremanPaul2022QA', 'LandremanPaul2022QH']
+        for name in cands:
+            try:
+                kw = KwargsOnly.from_paper(name).received
+            except Exception:
+                continue
+            br.append([[name if isinstance(name, str) else 'int:%d' % name], [[k, repr(v)] for k, v in kw.items()]])
+        return dict(preset_branches=br, preset_advertised=list(qsc.Qsc.configurations), repo=REPO)
 
 
 def parse_name(s):
@@ -399,7 +434,7 @@ class KwargsOnly:
 def check_presets(rng, quick, stats, res):
     qsc = import_qsc()
     Qsc = qsc.Qsc
-    man = load_manifest()
+    man = load_manifest(res)
     out = []
     KwargsOnly.from_paper = classmethod(Qsc.from_paper.__func__)
 
@@ -730,7 +765,7 @@ def main():
         res['violations'] = real + [v for v in res['violations'] if str(v['key']).startswith('alias-name:')]
     res['predictions_checked'] = stats.get('predictions', 0)
     for k, v in stats.items():
-        if k.startswith('op:') or k == 'fresh_comparisons':
+        if k.startswith('op:') or k.startswith('inadmissible') or k == 'fresh_comparisons':
             res['distribution'][k] = v
     # one entry per key and kind is enough for the driver; keep the list short but never drop an alias-name entry
     names = [v for v in res['violations'] if str(v['key']).startswith('alias-name:')]
